@@ -237,6 +237,7 @@ type zoo struct {
 	cb      bool // allow callback types
 	maxDep  int
 	wide    bool // allow structs with 47..54 fields
+	omitzero bool // allow `omitzero` fields (encoding/json knows the option from go1.24 on: only where no reference is involved, or where a deviation shared with the event-free call is tolerated)
 }
 
 func (z *zoo) leaf() reflect.Type {
@@ -342,6 +343,11 @@ func (z *zoo) Struct(depth int) reflect.Type {
 			f.Tag = reflect.StructTag(`json:"` + strings.ToLower(name) + `,omitempty"`)
 		case 1:
 			f.Tag = reflect.StructTag(`json:"n` + strconv.Itoa(i) + `"`)
+		case 2:
+			if z.omitzero {
+				// evaluated by a call-out that gets the field's descriptor from the generated code
+				f.Tag = reflect.StructTag(`json:"` + strings.ToLower(name) + `,omitzero"`)
+			}
 		}
 		fs[i] = f
 	}
